@@ -48,6 +48,10 @@ Definition left_alone (p p' : profile) : Prop :=
   Forall2 (fun m m' => m_hasfn m = true -> m' = m) (p_mapping p) (p_mapping p') /\
   Forall2 (fun l l' => loc_protected p l -> l' = l) (p_location p) (p_location p').
 
+(* line information is only attached: a location is untouched or ends up with at least one line *)
+Definition lines_attached (p p' : profile) : Prop :=
+  Forall2 (fun l l' => l' = l \/ l_lines l' <> []) (p_location p) (p_location p').
+
 (* demangling never replaces a non-empty name by an empty one *)
 Definition names_kept (p p' : profile) : Prop :=
   extended (fun f f' => f_name f <> EmptyString -> f_name f' <> EmptyString) (p_function p) (p_function p').
@@ -115,6 +119,9 @@ Definition mapping_eqb (a b : mapping) : bool :=
 Definition line_eqb (a b : line) : bool := (ln_fn a =? ln_fn b) && (ln_line a =? ln_line b) && (ln_col a =? ln_col b).
 Definition location_eqb (a b : location) : bool :=
   loc_key_eqb a b && list_eqb line_eqb (l_lines a) (l_lines b) && Bool.eqb (l_folded a) (l_folded b).
+
+Definition lines_attachedb (p p' : profile) : bool :=
+  list_eqb (fun l l' => location_eqb l' l || negb (is_nil (l_lines l'))) (p_location p) (p_location p').
 
 Definition loc_protectedb (p : profile) (l : location) : bool :=
   forallb (fun m => negb (m_id m =? l_mapping l) || m_hasfn m) (p_mapping p).
